@@ -29,14 +29,14 @@ def run(ctx):
     s = vlib.correspondence(ctx, rel, "blake", ["--tier", ctx.tier, "--streams", streams], "blake/release/%s" % streams)
     vlib.decide_absolute(ctx, s, explain="explain_blake", theorem=th)
     for level, name in ((1, "sse2"), (2, "ssse3"), (3, "sse41"), (4, "avx"), (5, "avx2")):
-        s = vlib.correspondence(ctx, rel, "blake", ["--tier", "quick", "--streams", "reduced", "--level", level],
-                                "blake/release/reduced/forced-%s" % name)
+        s = vlib.correspondence(ctx, rel, "blake", ["--tier", "quick", "--streams", "tiny", "--level", level],
+                                "blake/release/tiny/forced-%s" % name)
         vlib.decide_absolute(ctx, s, explain="explain_blake", theorem=th + " (back end: C03/C12/C13)")
     native = tuple(vlib.native_rustflags())
     if native:
         nb, log = vlib.cargo_build(profile="release", bin_name="h_blake", rustflags=native)
         if nb is None:
             raise vlib.CheckError("harness build failed (release, %s): %s" % (" ".join(native), log[-2000:]))
-        s = vlib.correspondence(ctx, nb, "blake", ["--tier", "quick", "--streams", "reduced"],
-                                "blake/release/reduced/native-target-features")
+        s = vlib.correspondence(ctx, nb, "blake", ["--tier", "quick", "--streams", "tiny"],
+                                "blake/release/tiny/native-target-features")
         vlib.decide_absolute(ctx, s, explain="explain_blake", theorem=th)
